@@ -149,6 +149,18 @@ func (f *formatter) Root(n *ast.Root) {
 	f.addIndent()
 
 	f.formatStmts(&n.Stmts)
+
+	if n.EndTkn != nil {
+		// trailing white space and comments are layout like everywhere else; only the
+		// data that follows __halt_compiler(); has to survive
+		var keep []*token.Token
+		for _, t := range n.EndTkn.FreeFloating {
+			if t.ID == token.T_HALT_COMPILER {
+				keep = append(keep, t)
+			}
+		}
+		n.EndTkn.FreeFloating = keep
+	}
 }
 
 func (f *formatter) Nullable(n *ast.Nullable) {
